@@ -12,6 +12,9 @@ for sid in ids:
     if not os.path.exists(mp):
         continue
     meta = json.load(open(mp))
+    if meta.get('obsolete'):
+        print('%-62s obsolete: skipped' % sid, flush=True)
+        continue
     prop = meta['property']
     keep = '/root/scratch/mutreg.%d' % os.getpid()
     shutil.rmtree(keep, ignore_errors=True)
